@@ -15,6 +15,14 @@ func init() {
 	})
 	register("C11", func(r *vk.Report) {
 		eseqCheck(r, "C11", "cache", []string{"cache", "inv", "ret", "state", "events:cache.", "events:brk.", "events:rl.", "events:bh."})
+		n := scale(r, 300, 20000)
+		vk.Parallel(n, 4, func(i int) {
+			if r.Skip(13000000 + i) {
+				return
+			}
+			c11Concurrent(r, 13000000+i)
+		})
+		r.Rule += " Plus concurrent rounds: 2-18 goroutines with 2-6 different context keys overlap on one cache policy; every value encodes the key it was produced for, so a value served or stored under another key is a violation."
 	})
 	register("C16", func(r *vk.Report) {
 		eseqCheck(r, "C16", "events", []string{"events", "verdict"})
